@@ -268,7 +268,19 @@ def _wiring_equal(ctx, path):
         extra = []
         for b in (b1 or ()) + (b2 or ()):
             extra += [o1._target > formula.to_z3(b), formula.to_z3(b) >= 0]
-        for attempt in (base + list(ctx.phi1) + extra, base + list(ctx.phi1), base):
+        # ... and for which a first model can sit exactly on the bound of the optimiser's direction while a
+        # strictly better schedule exists (then the early stop, taken by one twin only, shows in the optimum)
+        from symx import stubs as _stubs
+        sharp = []
+        for o, phi in ((o1, ctx.phi1), (o2, ctx.phi)):
+            if o._bounds is None:
+                continue
+            bd = formula.to_z3(o._bounds[1] if o.kind == "maximize" else o._bounds[0])
+            copy, mp = _stubs.rename_problem_constants(list(phi), "onbound")
+            t_copy = mp.get(o._target.decl().name())
+            if t_copy is not None:
+                sharp += copy + [t_copy == bd, (o1._target > bd) if o.kind == "maximize" else (o1._target < bd)]
+        for attempt in (base + list(ctx.phi1) + sharp, base + list(ctx.phi1) + extra, base + list(ctx.phi1), base):
             v, m, _ = formula.solve_shrunk(attempt, 20000)
             if v == "sat":
                 break
